@@ -89,6 +89,7 @@ pub fn child(name: &str, args: &[String]) -> Option<i32> {
         "c05bg" => c05::child_bg(args),
         "c07bg" => c07::child_bg(),
         "c07huge" => c07::child_huge(args),
+        "c08stdout" => c08::child_stdout(),
         "c19rel" => c19::child_rel(args),
         "c09zone" => c09::child_zone(),
         "c09sweep" => c09::child_sweep(),
